@@ -500,7 +500,9 @@ def main():
     # a panic or hang of the implementation while running this property's streams is a
     # failing input for this property too, whatever property the oracle filed it under
     def relevant(w):
-        return w["property"] == pid or w["signature"].endswith("panic") or w["signature"].endswith("hang")
+        # (likewise a process death, a data race report, or a clean reopen that fails)
+        return (w["property"] == pid or w["signature"].endswith("panic") or w["signature"].endswith("hang")
+                or w["signature"] in ("process-dies", "data-race", "same-codec-refused"))
     witnesses = [w for r in stream_res for w in r.get("witnesses", []) if relevant(w)]
     open_sigs = {(k["property"], k["signature"]) for k in known.get("open", [])}
     new, seen_known = [], {}
